@@ -5,7 +5,7 @@ import os
 import lib
 
 MODEL_DEPS = ['CheckLib']
-KERNELS = ('IdentityEdge', 'CacheEdge', 'CheckIdsEdge', 'CachedColumn', 'HashBarrier', 'FunctionEdge', 'SwitchEdge', 'NodeHash')
+KERNELS = ('IdentityEdge', 'CacheEdge', 'CheckIdsEdge', 'CachedColumn', 'CacheColumns', 'HashBarrier', 'FunctionEdge', 'SwitchEdge', 'NodeHash')
 TRUSTED = ['Coq 8.16.1 kernel', 'tools/translate.py: the hash makers named in translated_kernels',
            'tarn.pickler.dumps is deterministic across interpreters: observed on this run only (3 string-hash seeds), trusted beyond']
 ASSUMPTIONS = ['symbolic user functions are importable module-level functions (pickled by reference)']
@@ -72,4 +72,6 @@ def run(ctx):
             'samples': [{'spec': base[0]['spec'], 'rewrites': [r['name'] for r in base[0]['rewrites']]}],
             'distribution': {'rewrite_kinds': kinds, 'interpreters': len(SEEDS)}, 'violations': out_v, 'oracle_checks': checks, 'mismatches': 0}
     from props import colreuse
-    return colreuse.add(ctx, res, 'C07')
+    res = colreuse.add(ctx, res, 'C07')
+    from props import colmodel
+    return colmodel.add(ctx, res, 'C07', n_quick=80, n_thorough=800)
